@@ -125,7 +125,10 @@ class ScriptedGroupClient:
             self.fam.act(["join", MEMBERS.get(payload.member_id, 9)])
             return self._new("join")
         if name == "_SyncGroupRequest":
-            self.fam.act(["sync", payload.generation_id, MEMBERS.get(payload.member_id, 9), len(payload.group_assignment)])
+            parts = []
+            for m in payload.group_assignment:
+                parts += [p for t, ps in kwire.parse_assignment(m.member_metadata)["assignment"] for p in ps]
+            self.fam.act(["sync", payload.generation_id, MEMBERS.get(payload.member_id, 9), len(payload.group_assignment), sorted(parts)])
             return self._new("sync")
         if name == "_HeartbeatRequest":
             self.fam.act(["hb", -1 if payload.generation_id is None else payload.generation_id, MEMBERS.get(payload.member_id, 9)])
@@ -259,7 +262,7 @@ class GroupRun:
             elif a == "MetaDone":
                 P("meta").callback(None)
             elif a == "PartsDone":
-                P("parts").callback({TOPIC: [0, 1]})
+                P("parts").callback({TOPIC: list(range(x))})
             elif a == "JoinDone":
                 from afkak.common import _JoinGroupResponse, _JoinGroupResponseMember
                 me = MEMBER_NAMES[w[0]]
@@ -341,7 +344,7 @@ def random_run(cfg, seed, length):
             add(1.2, "MetaErr", 0, rng.choice(["kafka", "kafka", "other"]))
             add(8, "JoinDone", gen + 1, rng.choice(["leader", "follower"]), [rng.choice([1, 1, 2])])
             add(2, "JoinErr", 0, rng.choice(ERR_JOIN))
-            add(8, "PartsDone")
+            add(8, "PartsDone", rng.choice([2, 2, 3]))
             add(1.2, "PartsErr", 0, rng.choice(["kafka", "other"]))
             add(8, "SyncDone", 0, "", rng.choice([[], [0], [1], [0, 1], [0, 1]]))
             add(2, "SyncErr", 0, rng.choice(ERR_JOIN))
